@@ -56,6 +56,20 @@ def _contains_zero_divisor_or_undefined_constant(model, envs):
                     break
             if not nonzero and ('ok' in statuses or 'ambig' in statuses or 'illcond' in statuses):
                 return True
+        if not closed and n[0] in ('call', 'calln', 'bin') and envs:
+            # a sub-term that is undefined (never defined, at least once undefined) on the whole grid:
+            # folding inside it (e.g. len of a set literal) can turn it into an undefined constant
+            sts = set()
+            for e in envs:
+                st, v = ev.try_ev(n, e)
+                if st == 'undef' and 'unbound variable' in v:
+                    sts.add('ok')
+                    break
+                sts.add(st)
+                if st == 'ok':
+                    break
+            if 'ok' not in sts and 'undef' in sts:
+                return True
     return False
 
 
